@@ -159,7 +159,7 @@ pub fn check_crash_dir(
         f
     })?;
     let mut model = if which == 0 { a.clone() } else { b.unwrap().clone() };
-    ap.kv = None;
+    ap.close();
     // crash during recovery: every proper prefix of the recovery's own mutating calls
     let dname = dir.file_name().unwrap().to_string_lossy().to_string();
     let rcalls = mutating_calls(&rlog, &dname, false);
@@ -181,7 +181,7 @@ pub fn check_crash_dir(
             f.msg = format!("{} + crash after {} call(s) of recovery: {}", what, j, f.msg);
             f
         })?;
-        ap2.kv = None;
+        ap2.close();
         let _ = std::fs::remove_dir_all(&d2);
     }
     // recovery 2 on what recovery 1 left behind (= crash right after recovery completed)
